@@ -412,7 +412,14 @@ def parseDoc (t : YVal α) : Except Err (List (Mod α) × List (Net α)) :=
 
 /-! ### `Netlist.__init__` -/
 
-/-- `Module.calculate_center_from_rectangles`: three running sums from `0.0`. -/
+/-- `Module.calculate_center_from_rectangles`: Σ area·x, Σ area·y and Σ area over the rectangles, then two divisions.
+    After fixes/C04_centroid_fsum.diff the implementation takes the three sums with `math.fsum`: each is the CORRECTLY
+    ROUNDED value of the exact sum of the (rounded) products, hence independent of the order of the rectangles — which
+    `create_stog` changes between a write and the next read — so the float centre is bit-identical after a round trip.
+    In exact arithmetic (`Rat`, and every theorem) a correctly rounded sum IS the sum, i.e. this left-to-right fold; the
+    theorems are unchanged (`centroid_perm` is the exact-arithmetic counterpart of the order independence).  At `Float`
+    the fold may differ from `fsum` in the last bits: the float stream compares centres with 1e-9 against the model and
+    EXACTLY between the loaded and the re-read implementation objects. -/
 def centroid (rs : List (NRect α)) : α × α :=
   let s := rs.foldl (fun (acc : α × α × α) r =>
     (acc.1 + r.area * r.cx.val, acc.2.1 + r.area * r.cy.val, acc.2.2 + r.area)) ((zero : α), (zero : α), (zero : α))
